@@ -99,6 +99,7 @@ UNIT = Unit(
     prelude=["core.rs", "raw.rs", "iter.rs", "crypto.rs", "state_abs.rs"],
     lemmas=["sums.rs", "iterlem.rs", "coinsview.rs", "tips.rs", "apply.rs"],
     items=[
+        Fn(DEP_TX, "base_fee", impl="Transaction", mode="assume", **tx_base_fee()),
         TypeItem(S, "struct", "UnsealedState"),
         TypeItem(S, "enum", "StateError", derive="#[derive(Clone, Copy, PartialEq, Eq, Structural)]"),
         Raw("impl<C: ContentAddrStore> Clone for UnsealedState<C> { #[verifier::external_body] fn clone(&self) -> (r: Self) ensures r == *self { unimplemented!() } }"),
